@@ -244,6 +244,7 @@ def main():
                       "vacuity_probes": res.vacuity},
             "kani": kres["units"],
             "kani_bounded_units": kres.get("bounded", 0),
+            "kani_units_not_decided_timeout": kres.get("timeouts", []),
             "evaluations": n_obl + kres.get("cbmc_checks", 0),
             "distinct_nontrivial": max(2, res.verified + kres.get("covers_hit", 0)),
             "rule": "evaluations = named Verus obligations of this property + individual CBMC checks of its Kani units; distinct_nontrivial = functions/lemmas verified by Verus + Kani cover properties reached (each a distinct reachable scenario)",
